@@ -40,6 +40,7 @@ type height struct {
 // Run is the driver entry point.
 func Run(o *drv.Out) {
 	corpusOversize(o)
+	corpusFullBlock(o)
 	corpusNonCanonical(o)
 	nCases, nHeights := 5, 5
 	if o.Tier == "thorough" || o.Search {
@@ -72,14 +73,45 @@ func proposeAndCommit(c *execdrv.Chain, A *node.Node, txs []node.MixTx) *height 
 			map[string]any{"case": o.CurCase(), "height": ht.h, "block": hex.EncodeToString(p.Block), "remainder": remainder})
 		return nil
 	}
-	c.Commit(A, p, false)
+	resA := c.Commit(A, p, false)
 	ht.p, ht.post = p, A.StateDigest()
 	o.Op(fmt.Sprintf("def %d %s %s %s %s", ht.h, ht.pre, p.ID, ht.post, p.Obs), "def")
 	c.Release()
+	if !strings.HasPrefix(resA, "ok") {
+		o.Fail("C11:honest-proposal-rejected"+rejectionClass(A, p, remainder), fmt.Sprintf("height %d: the proposer's own certified block is rejected by its HandlePeerBlock: %s (%s)", ht.h, resA, blockSizes(A, p)),
+			map[string]any{"case": o.CurCase(), "height": ht.h, "result": resA, "sizes": blockSizes(A, p), "block": hex.EncodeToString(p.Block)})
+		return nil
+	}
 	if remainder > 0 {
 		o.Count("proposer-oversize-remainder")
 	}
 	return ht
+}
+
+// blockSizes describes a block against the limits: raw transaction bytes (what the proposer budgets
+// and the protocol limits), serialized bytes, and the blockSize parameter.
+func blockSizes(nd *node.Node, p *execdrv.Proposal) string {
+	blk := new(lib.Block)
+	_ = lib.Unmarshal(p.Block, blk)
+	raw := 0
+	for _, tx := range blk.Transactions {
+		raw += len(tx)
+	}
+	budget := nd.MaxBlockSize()
+	return fmt.Sprintf("%d txs, raw tx bytes %d <= budget %d, serialized block %d bytes, blockSize %d", len(blk.Transactions), raw, budget, len(p.Block), budget+lib.MaxBlockHeaderSize)
+}
+
+// rejectionClass names the mechanism when it is recognisable from the block itself.
+func rejectionClass(nd *node.Node, p *execdrv.Proposal, remainder int) string {
+	if uint64(len(p.Block)) > nd.MaxBlockSize()+lib.MaxBlockHeaderSize {
+		// the raw transaction bytes fit the budget (the proposer never exceeds it) but the serialized block,
+		// with its per-transaction framing, is larger than the blockSize parameter
+		return ":full-block-of-small-txs"
+	}
+	if remainder > 0 {
+		return ":oversize-remainder"
+	}
+	return ""
 }
 
 // replicate: B validates A's proposal and commits it with the cached result.
@@ -96,6 +128,15 @@ func replicate(c *execdrv.Chain, B *node.Node, ht *height, remainder bool) bool 
 	}
 	got := c.Commit(B, ht.p, false)
 	want := fmt.Sprintf("ok state=%s obs=%s", ht.post, ht.p.Obs)
+	if strings.HasPrefix(got, "err:") {
+		rem := 0
+		if remainder {
+			rem = 1
+		}
+		o.Fail("C11:honest-proposal-rejected"+rejectionClass(B, ht.p, rem), fmt.Sprintf("height %d: node B validated the honest proposal but its HandlePeerBlock rejects the certified block: %s (%s)", ht.h, got, blockSizes(B, ht.p)),
+			map[string]any{"case": o.CurCase(), "height": ht.h, "result": got, "sizes": blockSizes(B, ht.p), "block": hex.EncodeToString(ht.p.Block)})
+		return false
+	}
 	if got != want {
 		o.Fail("C11:replay-diverges", fmt.Sprintf("height %d: B commits %q, A %q", ht.h, got, want), map[string]any{"case": o.CurCase(), "height": ht.h})
 		return false
@@ -271,6 +312,51 @@ func corpusOversize(o *drv.Out) {
 		}
 		o.Count(fmt.Sprintf("corpus-oversize:%d-sends:included=%d", n, ht.p.NTx))
 	}
+}
+
+// corpusFullBlock: a block FULL of small transactions built from an overflowing mempool (~690 sends
+// fit 150 kB). Its raw transaction bytes honour the budget blockSize - MaxBlockHeaderSize; serialized,
+// the per-transaction framing makes it longer than that budget plus the real header, possibly longer
+// than blockSize. Every honest node must accept it on the paths that run QuorumCertificate.Check with
+// the state-derived limit (HandlePeerBlock outside sync: A itself and B), and a fresh node must sync it.
+func corpusFullBlock(o *drv.Out) {
+	o.Case("corpus-full-block-of-small-txs")
+	rng := rand.New(rand.NewSource(47))
+	net := node.NewNetwork(8, 4, nil, 24, node.Options{BlockSize: lib.MaxBlockHeaderSize + 150_000})
+	defer net.Close()
+	c := execdrv.NewChain(o, net, rng, []int{16, 3})
+	A, B, C := c.NewNode("A", 0), c.NewNode("B", 1), c.NewNode("C", -1)
+	var senders []int
+	for i := range net.AcctKeys {
+		if i%4 != 3 { // ed25519 accounts: uniform, small transactions
+			senders = append(senders, i)
+		}
+	}
+	for hi, n := range []int{1, 900} {
+		h := A.Height()
+		var txs []node.MixTx
+		for i := 0; i < n; i++ {
+			txs = append(txs, node.MixTx{Kind: "send", Bytes: net.SendTx(net.AcctKeys[senders[i%len(senders)]], net.FreshAddr(hi*10000+i), 1000, 10000, h, ""), Expect: true})
+		}
+		ht := proposeAndCommit(c, A, txs)
+		if ht == nil {
+			return
+		}
+		if !replicate(c, B, ht, A.MempoolCount() > 0) || !serveAndSync(c, A, C, ht) {
+			return
+		}
+		o.Count(fmt.Sprintf("corpus-full-block:%d-submitted:included=%d:serialized-minus-blocksize=%d", n, ht.p.NTx, len(ht.p.Block)-int(lib.MaxBlockHeaderSize+150_000)))
+	}
+	o.Sample("corpus-full-block-of-small-txs: " + blockSizes(A, &execdrv.Proposal{Block: mustLast(A)}))
+}
+
+// mustLast returns the last committed block of a node as served by its archive.
+func mustLast(nd *node.Node) []byte {
+	qc, err := nd.QCByHeight(nd.Height() - 1)
+	if err != nil {
+		return nil
+	}
+	return qc.Block
 }
 
 // corpusNonCanonical: suspected defect F2 (DESIGN §8), C11 view. A valid send is re-encoded without
